@@ -26,7 +26,8 @@ EXPLANATION = (
     "the literal; and the scanner yields offsets only for the occurrence / f-string groups.  R02.3: occurrences are "
     "yielded only when a filter returned a truthy result, only the identity/hierarchy/unsure filters can return True, "
     "PyNameFilter returns True only under same_pyname, and create_finder installs a PyNameFilter for the queried "
-    "binding on every path.  That each candidate evaluates to the right binding is not decided."
+    "binding on every path.  R02.4 (=R01.1): the enclosing-scope lookup chain skips class scopes.  That each candidate evaluates to "
+    "the right binding is otherwise not decided."
 )
 ASSUMPTIONS = ["re alternation is ordered (leftmost position, first alternative wins)",
                "the name searched for is a plain identifier (symbolic NAME in the folded pattern)"]
@@ -244,3 +245,8 @@ def _group_sources(pat: str) -> Dict[str, str]:
             name = alt[4:alt.index(">")]
             res[name] = alt[alt.index(">") + 1:-1]
     return res
+
+    # ---- R02.4 (=R01.1): whether two occurrences are the same binding rests on the lookup chain skipping class scopes
+    from .c01 import class_scope_rule
+
+    class_scope_rule(ctx, res, "R02.4")
